@@ -68,6 +68,14 @@ STR_NE = [{"name": "std::string != -> abstract identity comparison", "pattern": 
 RX_SET_CACHE = {"main": "src/randomx.cpp", "keep": ["randomx_vm_set_cache", "randomx_vm::getMemory", "randomx_vm::usesCache"], "pre_rewrites": STR_NE,
                 "must_fire": {"recipe rewrite: std::string != -> abstract identity comparison": 1}}
 
+VM_ALLOCATE = {"main": "src/virtual_machine.cpp", "keep": ["VmBase::allocate", "rx_load_vec_i128", "rx_store_vec_i128"],
+               "flatten": {"root": "randomx_vm", "concrete": "VmBase", "chain": ["randomx_vm", "VmBase"]},
+               "pre_rewrites": [{"name": "Allocator::allocMemory -> allocator stand-in", "pattern": r"Allocator::allocMemory\(", "repl": "rxv_Allocator_allocMemory("}],
+               "must_fire": {"recipe rewrite: Allocator::allocMemory -> allocator stand-in": 1}}
+
+SS_SELECT = {'main': 'src/superscalar.cpp', 'keep': ['SuperscalarInstruction::selectDestination', 'SuperscalarInstruction::selectSource', 'selectRegister'], 'pre_rewrites': [{'name': 'std::vector<int> local -> fixed-capacity list', 'pattern': '\\b(static\\s+)?std::vector<int> (\\w+);', 'repl': '\\1rxv_ivec8 \\2 = { { 0 }, 0 };'}, {'name': 'vector push_back', 'pattern': '\\b(\\w+)\\.push_back\\(', 'repl': 'rxv_ivec8_push(&\\1, '}, {'name': 'vector clear', 'pattern': '\\b(\\w+)\\.clear\\(\\)', 'repl': 'rxv_ivec8_clear(&\\1)'}, {'name': 'vector size', 'pattern': '\\b(\\w+)\\.size\\(\\)', 'repl': 'rxv_ivec8_size(&\\1)'}, {'name': 'vector index', 'pattern': '\\bavailableRegisters\\[(\\w+)\\]', 'repl': 'rxv_ivec8_at(&availableRegisters, \\1)'}, {'name': 'instruction type query -> stand-in', 'pattern': 'info_->getType\\(\\)', 'repl': 'rxv_info_type(info_)'}, {'name': 'generator draw -> stand-in', 'pattern': 'gen\\.getUInt32\\(\\)', 'repl': 'rxv_gen_u32(&gen)'}], 'opaque_classes': ['MacroOp', 'SuperscalarInstructionInfo', 'DecoderBuffer', 'Blake2Generator'], 'drop_vars': ['SuperscalarInstruction::Null', 'SuperscalarInstruction_Null', '\\bslot_\\w+', 'buffer\\d', 'decodeBuffers?', '\\bNull\\b'], 'vector_as': {'int': 'rxv_ivec8'}}
+SS_SELECT["must_fire"] = {"recipe rewrite: std::vector<int> local -> fixed-capacity list": 2, "recipe rewrite: vector push_back": 2}
+
 # randomx_init_cache: std::string operations -> the abstract string model of the extractor prelude
 STR_OPS = [{"name": "local std::string -> rxv_string", "pattern": r"\bstd::string (\w+);", "repl": r"rxv_string \1 = { 0, 0, 0 };"},
            {"name": "std::string::assign -> rxv_string_assign", "pattern": r"\b(\w+(?:->\w+)*)\.assign\(", "repl": r"rxv_string_assign(&\1, "},
@@ -129,3 +137,11 @@ JIT_LAYOUT = dict(X86, main="src/jit_compiler_x86.cpp",
     # reads the code buffer back
     only_uses=[{"name": "code buffer is write-only in the generator", "token": r"self->code\b(?!Pos)",
                 "allowed": [r"memcpy\(self->code \+ self->codePos(?: - 48)?,", r"self->code\[self->codePos\] = "], "min": 8}])
+
+# the library's translation units (CMakeLists.txt randomx_sources + the x86 JIT), for native replays that need their own flags
+LIB_SOURCES = ["src/aes_hash.cpp", "src/argon2_ref.c", "src/argon2_ssse3.c", "src/argon2_avx2.c", "src/bytecode_machine.cpp", "src/cpu.cpp",
+               "src/dataset.cpp", "src/soft_aes.cpp", "src/virtual_memory.c", "src/vm_interpreted.cpp", "src/allocator.cpp",
+               "src/assembly_generator_x86.cpp", "src/instruction.cpp", "src/randomx.cpp", "src/superscalar.cpp", "src/vm_compiled.cpp",
+               "src/vm_interpreted_light.cpp", "src/argon2_core.c", "src/blake2_generator.cpp", "src/instructions_portable.cpp",
+               "src/reciprocal.c", "src/virtual_machine.cpp", "src/vm_compiled_light.cpp", "src/blake2/blake2b.c",
+               "src/jit_compiler_x86.cpp", "src/jit_compiler_x86_static.S"]
